@@ -23,7 +23,26 @@ pub fn gen_case2(prop: &str, seed: u64, thorough: bool, rng: &mut Rng) -> Case {
             cfg.crash_samples = if thorough { 0 } else { 12 };
             let mut g = Gen { rng: Rng::new(rng.next_u64()), next_uid: 1 };
             let n = rng.range(3, 18) as usize;
-            let ops = gen_history(&mut g, &cfg, n, rng.chance(1, 2), true, true);
+            let mut ops = gen_history(&mut g, &cfg, n, rng.chance(1, 2), true, true);
+            // sometimes a window of concurrent producers (committed at once): crash points then also
+            // fall between storage operations caused by several client threads
+            if rng.chance(1, 4) {
+                let np = rng.range(2, 3) as usize;
+                let mut ps = vec![];
+                for _ in 0..np {
+                    let mut p = vec![];
+                    for _ in 0..rng.range(1, 3) {
+                        if rng.chance(2, 3) {
+                            p.push(ProdOp::Add(g.doc(cfg.nkeys)));
+                        } else {
+                            p.push(ProdOp::DeleteKey(rng.below(cfg.nkeys)));
+                        }
+                    }
+                    ps.push(p);
+                }
+                let at = rng.below(ops.len() as u64 + 1) as usize;
+                ops.insert(at, Op::Fork(ps));
+            }
             Case { seed, cfg, ops }
         }
         _ => crate::profiles3::gen_case3(prop, seed, thorough, rng),
